@@ -34,6 +34,9 @@ pub const JOBS: &[&str] = &[
     "set_sink",
     "side_left_merge",
     "side_left_join",
+    "side_zip_right",
+    "side_zip_left",
+    "limited_forward",
 ];
 
 fn get1<T: Send + 'static>(o: StreamOutput<Vec<T>>, f: impl Fn(T) -> Vec<i64> + Send + 'static) -> Getter {
@@ -312,6 +315,49 @@ pub fn build(ctx: &StreamContext, job: &str, n: i64, bm: BatchMode, fault: Optio
                 3,
                 0i64,
                 move |s, state| side.merge(s).map(move |x| (x + *state.get()) % 1_000_003),
+                |delta: &mut i64, x| *delta = (*delta + x) % 1_000_003,
+                |old, delta| *old = (*old + delta) % 1_000_003,
+                |_state| true,
+            );
+            let o = state.collect_vec();
+            vec![get1(o, |x| vec![x])]
+        }
+        "limited_forward" => {
+            // a forward connection into a block with fewer replicas (`Limited(2)`): on several hosts the
+            // consumer replicas do not cover every producer host; nothing may be dropped
+            let o = ctx
+                .stream_par_iter(0..n)
+                .batch_mode(bm)
+                .replication(renoir::Replication::new_limited(2))
+                .map(|x| x + 1)
+                .collect_vec();
+            vec![get1(o, |x| vec![x])]
+        }
+        "side_zip_right" => {
+            // a side input from outside the loop zipped with the loop stream inside a replay body (right
+            // operand); equal lengths, so every element is used exactly once whatever the pairing
+            let n = n.min(200);
+            let side = ctx.stream_par_iter(0..n).batch_mode(bm).map(|x| x * 2);
+            let state = ctx.stream_par_iter(0..n).batch_mode(bm).replay(
+                3,
+                0i64,
+                move |s, state| s.zip(side).map(move |(a, b)| (a + b + *state.get()) % 1_000_003),
+                |delta: &mut i64, x| *delta = (*delta + x) % 1_000_003,
+                |old, delta| *old = (*old + delta) % 1_000_003,
+                |_state| true,
+            );
+            let o = state.collect_vec();
+            vec![get1(o, |x| vec![x])]
+        }
+        "side_zip_left" => {
+            // a side input from outside the loop zipped with the loop stream inside a replay body (left
+            // operand); equal lengths, so every element is used exactly once whatever the pairing
+            let n = n.min(200);
+            let side = ctx.stream_par_iter(0..n).batch_mode(bm).map(|x| x * 2);
+            let state = ctx.stream_par_iter(0..n).batch_mode(bm).replay(
+                3,
+                0i64,
+                move |s, state| side.zip(s).map(move |(a, b)| (a + b + *state.get()) % 1_000_003),
                 |delta: &mut i64, x| *delta = (*delta + x) % 1_000_003,
                 |old, delta| *old = (*old + delta) % 1_000_003,
                 |_state| true,
